@@ -6,6 +6,7 @@ mod body;
 mod codegen;
 mod dynval;
 mod negotiate;
+mod orders;
 mod recser;
 mod safelong;
 mod serdewrap;
@@ -21,6 +22,7 @@ fn main() {
         "codegen-safe" => codegen::codegen_safe(rest),
         "negotiate" => negotiate::negotiate(rest),
         "uri" => uri::uri(rest),
+        "orders" => orders::orders(rest),
         "serde" => serdewrap::serdewrap(rest),
         "any" => anyval::anyval(rest),
         "tokens" => tokens::tokens(rest),
